@@ -62,8 +62,9 @@ CLAIMS["C10"] = dict(
     text=("Deductive proof of the soundness half of auth.Verify for all requests, credentials and method sets: acceptance implies the scheme "
           "(and for Digest the algorithm) is among the enabled methods, user name, realm and nonce equal the expected ones, the URL rule "
           "held for the received URI, and the response equals the hash term built from the EXPECTED user, realm, password, nonce and the "
-          "request's method (Basic: user and password equal). Hash functions and the URL rule are uninterpreted functions of their arguments."),
-    note=TRUST + "Strings are an uninterpreted sort with equality, length and concatenation. Completeness (credentials produced by the library's own Sender are accepted), header marshal/unmarshal round trips and the server's 401/close behaviour are not decided by this check.",
+          "request's method (Basic: user and password equal). Hash functions and the URL rule are uninterpreted functions of their arguments. "
+          "The Sender computes exactly the response Verify expects, and Basic credentials are refused for their shape only when the decoded string contains no colon at all (a password may contain ':')."),
+    note=TRUST + "Strings are an uninterpreted sort with equality, length and concatenation. Full completeness (every header the Sender marshals is accepted after unmarshalling), Digest header marshal/unmarshal round trips and the server's 401/close behaviour are not decided by this check.",
     design="DESIGN.md section 4, C10",
 )
 
